@@ -1152,12 +1152,34 @@ pub fn merger(rhs: Value, lhs: Value) -> Result<Value, Error> {
                 })
             }
         }
-        (Value::Tuple { elements, .. }, other) => {
-            let mut variants: BTreeSet<Value> = BTreeSet::default();
-            if elements.iter().any(Value::is_optional) || other.is_optional() {
+        (
+            Value::Tuple { elements, optional },
+            Value::OneOf {
+                mut variants,
+                optional: other_opt,
+            },
+        ) => {
+            if optional && !variants.contains(&Value::Null) {
                 variants.insert(Value::Null);
             }
-            variants.extend(elements.into_iter().map(Value::as_non_optional));
+            variants.insert(Value::Tuple {
+                elements,
+                optional: false,
+            });
+            Ok(Value::OneOf {
+                variants,
+                optional: other_opt,
+            })
+        }
+        (Value::Tuple { elements, optional }, other) => {
+            let mut variants: BTreeSet<Value> = BTreeSet::default();
+            if optional || other.is_optional() {
+                variants.insert(Value::Null);
+            }
+            variants.insert(Value::Tuple {
+                elements,
+                optional: false,
+            });
             variants.insert(other.as_non_optional());
 
             Ok(Value::OneOf {
